@@ -9,7 +9,7 @@ CFG = {
             "three keys without DeleteAll, L=5; two mergeable heaps, L=4: the same on both plus Merge in both directions; binary heap additionally with initial sizes 1..4) x 3 implementations "
             "x min/max comparator, with the full battery Size/IsEmpty/Peek/ContainsKey 1,2,3/ContainsValue held,absent/verify()/layout dump after every step; "
             "shapes: binary heap fill-and-drain across every resize boundary for initial sizes 0..6, merges of heaps of sizes a,b (carry chains, three trees of one order) "
-            "then drain, float64 maxDegree(n) against the exact definition; random: pools of 1..8 heaps, up to 1200 (thorough 2000) steps, duplicate-heavy key ranges "
+            "then drain, 2^k+1 inserts + Delete (one tree of degree k, k <= 9 quick / 12 thorough) with ascending/descending/equal/random keys, float64 maxDegree(n) against the exact definition; random: pools of 1..8 heaps, up to 1200 (thorough 2000) steps, duplicate-heavy key ranges "
             "{1,2,3,5,16,64,1000}, ascending/descending/equal/saw-tooth shapes, Merge, DeleteAll, final drain. "
             "A case is non-trivial when the model saw a Delete on a heap of >= 3 entries, a Merge of two non-empty heaps or a resize of the binary heap's array; "
             "distinct = distinct (header, op list).",
